@@ -317,3 +317,65 @@ theorem decode_udn_guarantee (pairs : List (Bytes × Bytes)) (a0 : Addr) (now : 
             have : (strOfBytes ub).isEmpty = false := by
               rw [str_isEmpty]; simpa using udn_ne_nil hub
             simp [C03.Parse.truthy, this]
+
+/-! ### the clock value reaches the tracker model intact -/
+
+theorem digitsRev_eq : ∀ f n, digitsRev f n = C03.Parse.digitsRev f n := by
+  intro f
+  induction f with
+  | zero => intro n; rfl
+  | succ f ih => intro n; simp [digitsRev, C03.Parse.digitsRev, ih]
+
+theorem decInt_toList (t : Int) :
+    (decInt t).toList = if t < 0 then '-' :: C03.Parse.dec t.natAbs else C03.Parse.dec t.toNat := by
+  unfold decInt
+  dsimp only
+  have hd : ∀ n : Nat, ((digitsRev (n + 1) n).reverse).map (fun d => Char.ofNat (48 + d)) = C03.Parse.dec n := by
+    intro n; unfold C03.Parse.dec; rw [digitsRev_eq]; rfl
+  split <;> simp [hd]
+
+theorem intOf_decInt (t : Int) : C03.Parse.intOf (decInt t).toList = some t := by
+  rw [decInt_toList]
+  by_cases h : t < 0
+  · simp only [h, if_true]
+    unfold C03.Parse.intOf
+    have hne : (C03.Parse.dec t.natAbs).isEmpty = false := by
+      simpa using C03.Parse.dec_ne_nil t.natAbs
+    have hall : (C03.Parse.dec t.natAbs).all C03.Parse.isDigit = true :=
+      List.all_eq_true.mpr fun c hc => (C03.Parse.dec_digits _ c hc).1
+    simp only [hne, hall, Bool.not_false, Bool.and_self, if_true, C03.Parse.digitsToNat_dec]
+    congr 1; omega
+  · simp only [h, if_false]
+    have hne : C03.Parse.dec t.toNat ≠ [] := C03.Parse.dec_ne_nil t.toNat
+    obtain ⟨c, r, hcr⟩ := List.exists_cons_of_ne_nil hne
+    have hdig : C03.Parse.isDigit c = true := (C03.Parse.dec_digits _ c (by rw [hcr]; simp)).1
+    have hc : c ≠ '-' := by intro e; subst e; revert hdig; decide
+    have hall : (C03.Parse.dec t.toNat).all C03.Parse.isDigit = true :=
+      List.all_eq_true.mpr fun c hc => (C03.Parse.dec_digits _ c hc).1
+    have hv := C03.Parse.digitsToNat_dec t.toNat
+    rw [hcr] at hall hv ⊢
+    unfold C03.Parse.intOf
+    split
+    · rename_i heq; simp only [List.cons.injEq] at heq; exact absurd heq.1 hc
+    · simp only [List.isEmpty_cons, Bool.not_false, hall, Bool.and_self, if_true, hv]
+      congr 1; omega
+
+/-- `_timestamp` as the tracker model reads it from a decoded header map is the clock value of the decode -/
+theorem tsOf_decoded (pairs : List (Bytes × Bytes)) (a0 : Addr) (now : Int) (loc : Option Addr) (src : Addr) :
+    C03.Parse.tsOf (C16.SMap.writeAll C03.Parse.lower []
+      (pairsOf (combineLower (headersOf pairs (udnOf pairs) a0) (callMeta now loc src)))) = now := by
+  have hi := headers_inv pairs (udnOf pairs) a0 now loc src
+  have kts : kTimestamp = "_timestamp".toList.map Char.toNat := by decide
+  have lts : lower kTimestamp = kTimestamp := by decide
+  have g : CIDict.getLower (combineLower (headersOf pairs (udnOf pairs) a0) (callMeta now loc src)) kTimestamp
+      = some (Val.ts now) := by
+    have e : CIDict.getLower (combineLower (headersOf pairs (udnOf pairs) a0) (callMeta now loc src)) kTimestamp
+        = getitem lower (combineLower (headersOf pairs (udnOf pairs) a0) (callMeta now loc src)) kTimestamp := by
+      unfold getitem CIDict.getLower; rw [lts]
+    rw [e, headers_get, lts]
+    simp [callMeta, get?]
+  have h1 := hs_get _ hi kTimestamp "_timestamp" (by decide) kts
+  rw [g] at h1
+  unfold C03.Parse.tsOf C03.Parse.hget
+  rw [h1]
+  simp only [Option.map_some, valStr, intOf_decInt, Option.getD_some]
